@@ -612,7 +612,7 @@ func (x *TopicsIndex) scanSubscribers(topic string, d int, n *particle, subs *Su
 				if wild := particle.particles.get("#"); wild != nil && partKey != "+" {
 					x.gatherSubscriptions(topic, wild, subs) // also match any subs where filter/# is filter as per 4.7.1.2
 					x.gatherSharedSubscriptions(wild, subs)
-					x.gatherInlineSubscriptions(particle, subs)
+					x.gatherInlineSubscriptions(wild, subs)
 				}
 			}
 		}
